@@ -867,6 +867,146 @@ Section Colour.
   Qed.
 End Colour.
 
+(* ---------- queries written = values received + queries pending, for a receive WITH a timer, along the
+   steps on which that timer does not fire ---------- *)
+Definition cnt_k (k : kind) (s : qstate) : Prop := nwr s k = length (rets s k) + count_pending k s.
+
+Lemma cnt_k_init : forall k n, cnt_k k (qinit n).
+Proof. intros k n. unfold cnt_k, count_pending. simpl. induction n; simpl; auto. Qed.
+
+Lemma cnt_k_step : forall c k s l s', chan_inv c s -> shape_inv s -> cnt_k k s -> qstep c l s = Some s' ->
+  no_timeout_at k s l = true -> cnt_k k s'.
+Proof.
+  intros c k s l s' CI SH I H NT. unfold cnt_k, count_pending in *.
+  destruct l as [g k1|g|g|x| |]; simpl in H.
+  - destruct (Nat.ltb_spec g (length (qp s))) as [L|L]; [|discriminate].
+    assert (Hp : pending k (QRun k1 (prog c k1)) = false) by (simpl; rewrite prog_has_write; apply Bool.andb_false_r).
+    destruct (qget s g) as [|k0 ops|k0|k0 ops r] eqn:Eg; try discriminate; [|destruct ops; [|discriminate]]; inv H; simpl;
+    pose proof (count_upd k (qp s) g (QRun k1 (prog c k1)) L) as X; fold (qget s g) in X; rewrite Eg, Hp in X; simpl in X; lia.
+  - pose proof (SH g) as Sg. fold (qget s g) in Sg.
+    destruct (qget s g) as [|k0 ops|k0|k0 ops r] eqn:Eg; try discriminate.
+    + assert (L : g < length (qp s)) by (apply qget_lt; congruence).
+      destruct ops as [|[b| |] ops]; try discriminate; inv H; simpl in *.
+      * pose proof (count_upd k (qp s) g (QRun k0 ops) L) as X. fold (qget s g) in X. rewrite Eg in X. simpl in X.
+        revert X. destruct (kind_eqb k0 k && negb (existsb is_write ops)); intros X; lia.
+      * pose proof (count_upd k (qp s) g (QRun k0 ops) L) as X. fold (qget s g) in X. rewrite Eg in X. simpl in X.
+        rewrite (allowed_after_write _ _ Sg) in X. simpl in X. rewrite Bool.andb_false_r, Bool.andb_true_r in X. unfold kupd.
+        replace (kind_eqb k k0) with (kind_eqb k0 k) by apply kind_eqb_sym. destruct (kind_eqb k0 k) eqn:E0; rewrite ?E0 in X; simpl in X; [apply kind_eqb_eq in E0; subst k0|]; lia.
+      * pose proof (allowed_select _ _ Sg) as Es. subst ops.
+        destruct (avail k0 s) as [|v rest] eqn:Ea.
+        -- rewrite receive_park by exact Ea. simpl.
+           pose proof (count_upd k (qp s) g (QParked k0) L) as X. fold (qget s g) in X. rewrite Eg in X. simpl in X.
+           rewrite Bool.andb_true_r in X. destruct (kind_eqb k0 k) eqn:E0; rewrite ?E0 in X; simpl in X; lia.
+        -- destruct (receive_take c g k0 s v rest Ea) as [_ [_ [A3 [_ [_ [A6 [_ [_ [_ [_ [_ [A12 _]]]]]]]]]]]]. rewrite A3, A6, A12.
+           pose proof (count_upd k (qp s) g (QPost k0 (qpost c k0 true) (Some v)) L) as X. fold (qget s g) in X. rewrite Eg in X. simpl in X.
+           rewrite Bool.andb_true_r in X. unfold kupd. replace (kind_eqb k k0) with (kind_eqb k0 k) by apply kind_eqb_sym.
+           destruct (kind_eqb k0 k) eqn:E0; rewrite ?E0 in X; simpl in X; [apply kind_eqb_eq in E0; subst k0; rewrite app_length; simpl|]; lia.
+    + assert (L : g < length (qp s)) by (apply qget_lt; congruence).
+      destruct ops as [|[b| |] ops]; try discriminate; inv H; simpl.
+      pose proof (count_upd k (qp s) g (QPost k0 ops r) L) as X. fold (qget s g) in X. rewrite Eg in X. simpl in X. lia.
+  - unfold no_timeout_at in NT.
+    destruct (qget s g) as [|k0 ops|k0|k0 ops r] eqn:Eg; try discriminate.
+    + assert (L : g < length (qp s)) by (apply qget_lt; congruence).
+      destruct ops as [|[b| |] ops]; try discriminate. destruct (k_rcv (q_k c k0)) eqn:Er; try discriminate. inv H. simpl.
+      pose proof (count_upd k (qp s) g (QPost k0 (qpost c k0 false) None) L) as X. fold (qget s g) in X. rewrite Eg in X. simpl in X.
+      simpl in NT. destruct (kind_eqb k0 k) eqn:E0; [discriminate|]. simpl in X. lia.
+    + assert (L : g < length (qp s)) by (apply qget_lt; congruence).
+      destruct (k_rcv (q_k c k0)) eqn:Er; try discriminate. inv H. simpl.
+      pose proof (count_upd k (qp s) g (QPost k0 (qpost c k0 false) None) L) as X. fold (qget s g) in X. rewrite Eg in X. simpl in X.
+      simpl in NT. destruct (kind_eqb k0 k) eqn:E0; [discriminate|]. simpl in X. lia.
+  - inv H. exact I.
+  - destruct (hp s) as [[|[b|ok|k1 v] r]|k1 v r] eqn:Eh; try discriminate.
+    + destruct (inq s) as [|x q]; [discriminate|]. inv H.
+      destruct (handle_effect c x (set_inq s q)) as [_ [_ [_ [E3 [_ [_ [E6 [E7 _]]]]]]]]. rewrite E3, E6, E7. exact I.
+    + inv H. exact I.
+    + inv H. exact I.
+    + inv H. unfold send. destruct (wait s k1) as [|g w] eqn:Ew.
+      * destruct (Nat.ltb (length (buf s k1)) (cap c k1)); [exact I|]. destruct (k_snd (q_k c k1)); exact I.
+      * simpl. assert (Hg : qget s g = QParked k1) by (apply (ci_w1 _ _ CI); rewrite Ew; left; reflexivity).
+        assert (L : g < length (qp s)) by (apply qget_lt; congruence).
+        pose proof (count_upd k (qp s) g (QPost k1 (qpost c k1 true) (Some v)) L) as X. fold (qget s g) in X. rewrite Hg in X. simpl in X.
+        unfold kupd. replace (kind_eqb k k1) with (kind_eqb k1 k) by apply kind_eqb_sym.
+        destruct (kind_eqb k1 k) eqn:E0; rewrite ?E0 in X; simpl in X; [apply kind_eqb_eq in E0; subst k1; rewrite app_length; simpl|]; lia.
+  - destruct (hp s) as [|k1 v r] eqn:Eh; try discriminate. destruct (k_snd (q_k c k1)); try discriminate. inv H. exact I.
+Qed.
+
+Section Timed.
+  Variable c : qcfg.
+  Variable n : nat.
+  Variable k : kind.
+  Hypothesis Hs : k_snd (q_k c k) = SNonblock.
+
+  Definition timed_hyp (s : qstate) (l : qlabel) : bool := honest_at k s l && conc_at c k s l && no_timeout_at k s l.
+  Definition timed_J (s : qstate) : Prop := dropped s k = [] /\ count_pending k s <= cap c k /\ cnt_k k s.
+
+  Lemma timed_J_step : forall s l s', qreach c n s -> timed_J s -> timed_hyp s l = true -> qstep c l s = Some s' -> timed_J s'.
+  Proof.
+    intros s l s' R [Jd [Jc CN]] Hh H.
+    pose proof (chan_inv_reach _ _ _ R) as CI. pose proof (acc_reach _ _ _ R k) as [AC _].
+    apply Bool.andb_true_iff in Hh. destruct Hh as [Hh Hnt]. apply Bool.andb_true_iff in Hh. destruct Hh as [Hon Hco].
+    pose proof (cnt_k_step c k s l s' CI (shape_reach _ _ _ R) CN H Hnt) as CN'.
+    unfold cnt_k in CN, CN'.
+    split; [|split; [|exact CN']].
+    - destruct (step_dropped c s l s' k H) as [D|[[El [v [r [Eh [Ew Hc]]]]]|[El [v [r [Eh Em]]]]]].
+      + rewrite D. exact Jd.
+      + exfalso. subst l. unfold honest_at in Hon. rewrite Eh, kind_eqb_refl in Hon. simpl in Hon. apply Nat.ltb_lt in Hon.
+        unfold avail in AC. rewrite Eh in AC. simpl in AC. rewrite app_nil_r, Jd in AC. simpl in AC. lia.
+      + congruence.
+    - destruct (step_nwr c s l s' k H) as [E|[g [ops [El [Eg E]]]]].
+      + pose proof (step_rets_mono c s l s' k H). lia.
+      + subst l. unfold conc_at in Hco. rewrite Eg, kind_eqb_refl in Hco. simpl in Hco. apply Nat.ltb_lt in Hco.
+        pose proof (step_rets_mono c s (LQ g) s' k H). lia.
+  Qed.
+
+  Lemma timed_J_run : forall tr s s', qreach c n s -> timed_J s -> qrun c tr s = Some s' -> qrun_all c timed_hyp tr s = true -> timed_J s'.
+  Proof.
+    induction tr as [|l tr IH]; intros s s' R J Hrun Hall; simpl in *.
+    - inv Hrun. exact J.
+    - destruct (qstep c l s) as [s1|] eqn:E; [|discriminate]. apply Bool.andb_true_iff in Hall. destruct Hall as [H1 H2].
+      eapply IH; [eapply qreach_step; eauto|eapply timed_J_step; eauto|exact Hrun|exact H2].
+  Qed.
+
+  Theorem timed_no_loss : forall tr s,
+    qrun c tr (qinit n) = Some s -> qrun_all c timed_hyp tr (qinit n) = true ->
+    dropped s k = [] /\ handled s k = rets s k ++ buf s k /\
+    (forall g, qget s g = QParked k -> buf s k = [] /\ length (handled s k) < nwr s k).
+  Proof.
+    intros tr s Hrun Hall.
+    assert (R0 : qreach c n (qinit n)) by (exists []; reflexivity).
+    assert (J0 : timed_J (qinit n)).
+    { split; [reflexivity|]. split; [|apply cnt_k_init]. unfold count_pending. simpl. clear. induction n; simpl; lia. }
+    destruct (timed_J_run tr _ _ R0 J0 Hrun Hall) as [Jd [Jc CN]]. unfold cnt_k in CN.
+    assert (R : qreach c n s) by (exists tr; exact Hrun).
+    pose proof (chan_inv_reach _ _ _ R) as CI. pose proof (acc_reach _ _ _ R k) as [AC1 AC2].
+    assert (Av : avail k s = buf s k) by (unfold avail; rewrite (no_offer_k c k Hs _ CI); apply app_nil_r).
+    split; [exact Jd|]. split; [rewrite <- Av; apply AC2; exact Jd|].
+    intros g Hg. assert (Hw : wait s k <> []) by (intro X; pose proof (ci_w2 _ _ CI _ _ Hg) as Y; rewrite X in Y; destruct Y).
+    destruct (ci_wait _ _ CI k Hw) as [Bk _]. split; [exact Bk|].
+    assert (P : pending k (qget s g) = true) by (rewrite Hg; simpl; apply kind_eqb_refl).
+    pose proof (pending_count_pos _ _ _ P). rewrite Av, Bk, Jd in AC1. simpl in AC1. lia.
+  Qed.
+End Timed.
+
+(* the theorem above on the translated configuration, for the size request (capacity 1, non-blocking send,
+   100 ms timer on the receive): the hypotheses are satisfiable — a report handled BEFORE the requester
+   reaches its receive — and the guard on the timer is needed: a request that times out and whose report
+   comes late leaves its token behind; the next request returns on it before its own report has arrived *)
+Lemma size_early_example :
+  let tr := [LCall 0 KSize; LQ 0; LArrive (SReply KSize 5); LH; LH; LQ 0]%nat in
+  k_snd (q_k gen_qcfg KSize) = SNonblock /\ k_rcv (q_k gen_qcfg KSize) = RTimed /\ cap gen_qcfg KSize = 1 /\
+  qrun_all gen_qcfg (timed_hyp gen_qcfg KSize) tr (qinit 1) = true /\
+  exists s, qrun gen_qcfg tr (qinit 1) = Some s /\ qget s 0 = QPost KSize [] (Some 5%Z) /\ rets s KSize = [5%Z] /\ buf s KSize = [].
+Proof. vm_compute. repeat split; try reflexivity. eexists. repeat split; reflexivity. Qed.
+
+Definition size_late_trace : list qlabel :=
+  [LCall 0 KSize; LQ 0; LQ 0; LQTimeout 0; LArrive (SReply KSize 7); LH; LH; LCall 0 KSize; LQ 0; LQ 0]%nat.
+Lemma size_late_report_witness :
+  qrun_all gen_qcfg (colour_hyp gen_qcfg KSize) size_late_trace (qinit 1) = true /\
+  qrun_all gen_qcfg (timed_hyp gen_qcfg KSize) size_late_trace (qinit 1) = false /\
+  exists s, qrun gen_qcfg size_late_trace (qinit 1) = Some s /\
+            nwr s KSize = 2 /\ handled s KSize = [7%Z] /\ qget s 0 = QPost KSize [] (Some 7%Z).
+Proof. vm_compute. repeat split; try reflexivity. eexists. repeat split; reflexivity. Qed.
+
 
 (* ---------- existsb over an updated table ---------- *)
 Lemma existsb_upd_new : forall A (P : A -> bool) (l : list A) g x, g < length l -> P x = true -> existsb P (upd_nat l g x) = true.
